@@ -254,6 +254,11 @@ pub fn shrink_net(net: &NetCfg) -> Vec<NetCfg> {
         n.set_activations.clear();
         push(&mut out, n);
     }
+    if net.built_last_act.is_some() {
+        let mut n = net.clone();
+        n.built_last_act = None;
+        push(&mut out, n);
+    }
     if !net.loopbacks.is_empty() {
         let mut n = net.clone();
         n.loopbacks.clear();
@@ -467,6 +472,8 @@ pub fn scenario_probes(sc: &Scenario, stats: &mut crate::core::Stats) {
     stats.probe("with_validation", sc.val.is_some());
     stats.probe("print_some", sc.print.is_some());
     stats.probe("batch_ge_17", sc.batch >= 17 && n >= 17);
+    stats.probe("group_ge_256", sc.batch >= 256 && n >= 256);
+    stats.probe("output_activation_reset", sc.net.built_last_act.is_some());
     stats.probe("scale_stratum", n >= 100 || sc.epochs >= 8 || sizes.iter().any(|s| *s >= 300));
     stats.probe("dropout_configured", sc.net.has_dropout());
     let mut fb3 = false;
